@@ -122,6 +122,9 @@ pub fn check(property: &str) -> Option<CheckDef> {
                 let mut v = c01_parts(2);
                 v.extend(c02_parts(2));
                 v.push(part(Box::new(Erased(engines::paintmon::PaintMonitor)), 500_000, 10_000_000, "C13", 20));
+                // integer sets and the sparse-bit-set codec are what the IFT client decodes patch maps with
+                v.push(part(Box::new(Erased(engines::histmodels::SparseBitSetCodec)), 12_000, 250_000, "C14", 20));
+                v.push(part(Box::new(Erased(engines::histmodels::IntSetHistory)), 40_000, 800_000, "C14", 20));
                 // subsetting is named by C20 only; plain panics of the subsetter on damaged fonts belong to no listed property
                 v.push(part(Box::new(Erased(engines::images::SubsetImages)), 12_000, 400_000, "C17", 20));
                 v
